@@ -82,6 +82,27 @@ LOOK = {"MISSING": lambda: MISSING, "None": lambda: None, "False": lambda: False
         "empty_str": lambda: "", "empty_tuple": lambda: (), "always_equal": AlwaysEqual, "other_state": Holder,
         "claims_class": ClaimsClass, "forged": lambda: object.__new__(Missing)}
 SENTINEL = object()
+
+
+def _never_called():
+    raise AssertionError("the fallback was called instead of being handed over")
+
+
+# fallbacks of every kind - also callables (functions and classes are ordinary values of function-typed attributes),
+# falsy ones and the missing value itself: the very object comes back
+FALLBACKS = (SENTINEL, _never_called, dict, None, 0, "", MISSING)
+
+
+def _when(x):
+    try:
+        got = [when_missing(x, fb) for fb in FALLBACKS]
+    except BaseException as e:  # noqa: BLE001
+        return f"raised {type(e).__name__}: {e}"[:80]
+    if all(g is fb for g, fb in zip(got, FALLBACKS)):
+        return "default"
+    if all(g is x for g in got):
+        return "value"
+    return "odd: " + repr([type(g).__name__ for g in got])[:80]
 BASE = dict(fresh=0, ok="ok", eq=(False, False), pred=("none", "none", "none"), attrs="none")
 
 
@@ -117,7 +138,7 @@ class MissingDriver:
             x = LOOK[args[0]]()
             return dict(BASE, k="probe", eq=(bool(MISSING == x), bool(x == MISSING)),
                         pred=("is_missing" if is_missing(x) else "not_missing" if not_missing(x) else "neither",
-                              "default" if when_missing(x, SENTINEL) is SENTINEL else "value",
+                              _when(x),
                               "falsy"))
         if name == "Inspect":
             rejected = True
